@@ -96,6 +96,17 @@ Section C25.
       (total = zero \/ exists y, In y its /\ total = item_end T add y).
   Proof. intros Hsa groups items. exact (hull_schedule_spec T zero add sub ltb ltb_asym le_trans Hsa groups items). Qed.
 
+  (** a source instruction whose expansion is empty (a calibration with an empty body) gets no
+      item; the instructions after it keep their own spans (previous theorem) *)
+  Theorem C25_empty_expansion_absent :
+    (forall a b, le a b -> add a (sub b a) = b) ->
+    forall (groups : list nat) (items : list (item T)) (k : nat),
+      (forall x, In x items -> le (item_start T x) (item_end T add x)) ->
+      (forall x, In x items -> 1 <= item_node T x <= N.of_nat (list_sum groups)) ->
+      nth_error groups k = Some 0%nat ->
+      ~ In (N.succ (N.of_nat k)) (map (item_node T) (fst (hull_schedule T zero add sub ltb groups items))).
+  Proof. intros Hsa. exact (empty_expansion_absent T zero add sub ltb ltb_asym le_trans Hsa). Qed.
+
   (** the instance checker run on the implementation's schedule *)
   Theorem C25_checker_sound :
     forall (is : list info) (E : list gedge) (durs : list (option T)) (items : list (item T)) (total : T),
